@@ -4,6 +4,7 @@ import (
 	"fmt"
 	"os"
 	"path/filepath"
+	"regexp"
 	"strings"
 	"testing"
 )
@@ -189,6 +190,28 @@ func NotNested(r *rec, q *rec) (string, bool) {
 	ok := r != nil && label(r) == "x"
 	return s, ok
 }
+
+// named results of several types: each expanded result keeps its own type
+func splitNames(rs []*rec) (first, last string, err error) {
+	for _, r := range rs {
+		if r == nil {
+			return "", "", fmt.Errorf("nil record")
+		}
+		if first == "" {
+			first = r.name
+		}
+		last = r.name
+	}
+	return first, last, nil
+}
+
+func NamedResults(rs []*rec) string {
+	a, b, err := splitNames(rs)
+	if err != nil {
+		return ""
+	}
+	return a + b
+}
 `
 
 func TestInlinerSmoke(t *testing.T) {
@@ -263,6 +286,10 @@ func TestInlinerSmoke(t *testing.T) {
 	notNested := ov[strings.Index(ov, "func NotNested"):]
 	if !strings.Contains(notNested, "bump(r)") || !strings.Contains(notNested, "label(r) == \"x\"") {
 		t.Errorf("a writing helper next to a memory read, or a call under &&, must stay in place:\n%s", notNested)
+	}
+	named := ov[strings.Index(ov, "func NamedResults"):]
+	if strings.Contains(named, "splitNames(") || !regexp.MustCompile(`var err_inl\d+ error`).MatchString(named) || !regexp.MustCompile(`var last(_inl\d+)? string`).MatchString(named) {
+		t.Errorf("named results of several types must each keep their own type when expanded:\n%s", named)
 	}
 	typed := ov[strings.Index(ov, "func Typed"):strings.Index(ov, "func label")]
 	if !strings.Contains(typed, "*rec") {
